@@ -48,8 +48,14 @@ def main():
     if a.what == 'setup':
         from pyvc import setup
         sys.exit(setup.main())
+    if a.what == 'crosscheck':
+        from pyvc import crosscheck
+        sys.exit(crosscheck.main())
     if a.what == 'selftest':
-        from pyvc import selftest
+        from pyvc import selftest, crosscheck
+        rc = crosscheck.main()
+        if rc:
+            sys.exit(rc)
         sys.exit(selftest.main(a.tier))
     if a.replay:
         from pyvc import replay
